@@ -10,5 +10,5 @@ s=[l.replace('assert(','assume(',1) if '/* KF:' in l else l for l in s]
 open('$D/mirror.rs','w').write('\n'.join(s))
 PY
 for seed in ${SEEDS:-0 1 2 3 4}; do
-  echo "== seed $seed"; verus mirror.rs --num-threads ${THREADS:-8} --rlimit ${RLIMIT:-30} --smt-option smt.random_seed=$seed 2>&1 | grep -E "^error|verification results|-->" | head -20
+  echo "== seed $seed"; verus mirror.rs --num-threads ${THREADS:-8} --rlimit ${RLIMIT:-30} --smt-option smt.random_seed=$seed 2>&1 | grep -E "^error|verification results" -A3 | grep -E "^error|verification results|^ *[0-9]+ \|" | head -20
 done
